@@ -239,6 +239,8 @@ def run(ctx, rep):
             r_none = HAS.reachable_from(tg.get(none, t["otherwise"]))
             okh = (not any(s_ in r_none for s_ in srch)) and any(s_ in HAS.reachable_from(tg[ids]) for s_ in srch) and any(s_ in HAS.reachable_from(tg[full]) for s_ in srch) if ids in tg and full in tg else False
     rep.check("C17.e", "has-modes", okh, where=HAS.loc(), what="has() searches Ids and FullEntries and answers false for None")
+    if ctx.tier == "thorough" and ctx.config == "default":
+        run_witness(ctx, rep)
 
 
 def _discr(prog, adt, name):
@@ -246,3 +248,23 @@ def _discr(prog, adt, name):
         if v["name"] == name:
             return v["discr"]
     raise AnchorError(f"{adt}::{name} not found")
+
+
+def run_witness(ctx, rep):
+    """thorough tier: compile-fail doctests (with compiling twins) of /verif/witness against /repo's current sources"""
+    import subprocess, shutil, os
+    here = os.path.dirname(os.path.dirname(os.path.abspath(__file__)))
+    w = os.path.join(here, "witness")
+    shutil.copy(os.path.join(ctx.repo, "Cargo.lock"), os.path.join(w, "Cargo.lock"))
+    env = dict(os.environ)
+    env.update({"CARGO_NET_OFFLINE": "true", "CARGO_TARGET_DIR": os.path.join(here, ".cache", "witness-target")})
+    r = subprocess.run(["cargo", "+nightly", "test", "--doc", "--offline"], cwd=w, env=env, stdout=subprocess.PIPE, stderr=subprocess.STDOUT, text=True)
+    out = r.stdout
+    tests = re.findall(r"^test src/lib.rs - (\w+) \(line \d+\)( - compile fail)? \.\.\. (\w+)", out, re.M)
+    rep.rule("C17.w", "type-level witness: location queries do not type-check on reduced index modes (compile_fail doctests with compiling twins)")
+    if not tests:
+        raise AnchorError("witness doctests did not run:\n" + out[-1500:])
+    for name, cf, res in tests:
+        rep.check("C17.w", f"witness/{name}", res == "ok", where="witness/src/lib.rs", what=f"doctest {name}{' (must fail to compile with E0599)' if cf else ' (compiling twin)'}: {res}")
+    twin_ok = "FAILED" not in out and r.returncode == 0
+    rep.check("C17.w", "witness/all", twin_ok, where="witness/src/lib.rs", what="all witnesses and their compiling twins behave as expected")
